@@ -140,6 +140,10 @@ func LoadBoardDetail(user *ptttype.UserecRaw, uid ptttype.UID, bid ptttype.Bid) 
 
 	isGroupOp := groupOp(user, uid, board)
 	state := boardPermStat(user, uid, board, bid)
+	// same rule as the listings: only for callers who may see the board or administer it.
+	if board.Brdname[0] == '\x00' || !((state != ptttype.NBRD_INVALID) || isGroupOp) {
+		return nil, ErrNotPermitted
+	}
 	boardStat := newBoardStat(bidInCache, state, board, isGroupOp)
 
 	if boardStat == nil {
